@@ -37,7 +37,9 @@ def gen_ops(rng, obs, nops):
             ops.append(["removeseg", rng.randrange(64), i, rng.choice([0, 0, 1, 2])])
         elif kind in ("fit", "override"):
             i = rng.randrange(8)
-            ops.append([kind, rng.randrange(64), i, rng.choice([0, 0, 1, 2, 5]), rng.randrange(64)])
+            pk = rng.randrange(64)
+            # now and then provider = receiver (the API takes two arbitrary vehicle ids)
+            ops.append([kind, pk, i, rng.choice([0, 0, 1, 2, 5]), pk if rng.random() < 0.12 else rng.randrange(64)])
         elif kind == "delete":
             ops.append(["delete", rng.randrange(64)])
         elif kind == "spawn_dummy":
